@@ -9,10 +9,10 @@ rsync -a --exclude target --exclude .git /repo/ $scratch/
 cd /verif
 alarms=0; partial=0; hard=0
 for p in C01 C02 C03 C04 C05 C06 C07 C08 C09 C10 C11 C12 C13 C15 C16 C17 C18 C19; do
-  VX_CACHE=1 VX_REPO=$scratch VX_SCRATCH_OUT=$scratch/out ./vx check $p > $scratch/out.$p 2> $scratch/err.$p; rc=$?
+  VX_CACHE=1 VX_SCRATCH_ID=$b VX_REPO=$scratch VX_SCRATCH_OUT=$scratch/out ./vx check $p > $scratch/out.$p 2> $scratch/err.$p; rc=$?
   if grep -q "^VIOLATION" $scratch/out.$p; then alarms=$((alarms+1)); echo "  FALSE ALARM $b / $p:"; grep "violated:" $scratch/err.$p | head -3 | cut -c1-300; fi
   if grep -q "^UNDECIDED (partial)" $scratch/out.$p; then partial=$((partial+1)); fi
   if [ $rc = 2 ]; then hard=$((hard+1)); echo "  exit 2 $b / $p: $(grep '^UNDECIDED' $scratch/out.$p | head -2 | cut -c1-200)"; fi
 done
 echo "== $b: false alarms in $alarms checks, partially undecided in $partial, exit-2 in $hard (of 18)"
-rm -rf $scratch
+rm -rf $scratch /verif/build/scratch-$b /verif/build/units-scratch-$b
